@@ -538,3 +538,5 @@ def check(run, prog):
     rule_no_shrink_while_iterating(run, prog)
     from .c07_directive_line import rule_directive_line
     rule_directive_line(run, prog)           # R-7.5
+    from .c05_file_read import rule_lossless_read
+    rule_lossless_read(run, prog, "R-7.6")
